@@ -207,6 +207,7 @@ def run(ck: Check, prog: Program) -> None:
                            f'{"; it can be " + "; ".join(stray) + " although the request has an id" if stray else ""}')
     ck.ob('REPLY-ID', 'every matched reply is built from the request id', not any(f_.rule == 'REPLY-ID' and 'does not carry' in f_.construct for f_ in ck.findings), sample={'reply_ids': reply_ids})
     _configured_values(ck, prog, ci)
+    _calls_kept(ck, prog, ci)
     # ---- _on_request: endpoint fallbacks and element-wise batches -----------------------------------
     cfg2 = CFG(onr, prog)
     p2: List[Tuple[str, str, int, str]] = []
@@ -406,6 +407,43 @@ def run(ck: Check, prog: Program) -> None:
     ck.ob('ROTATE', 'replace overwrites the patch at the given index', ok_rep, nontrivial=False)
     if not ok_rep:
         ck.finding('ROTATE', ci.qualname + '.replace', 'replace does not overwrite index idx', ci.module.rel, rep.node.lineno if rep else 0, '')
+
+
+def _calls_kept(ck: Check, prog: Program, ci: ClassInfo) -> None:
+    """RECORD-BEFORE-REPLY (every call stays recorded): the table of recorded calls is created by the constructor, filled by the
+    recording in _match_request and emptied only by the explicit reset operations — no other operation (removing or consuming a
+    patch, cleaning up emptied keys) takes recorded calls away."""
+    from ..effects import MUTATORS
+    attr_names = {'_calls', 'calls'}
+    allowed = {'__init__', '_match_request'}
+    bad = []
+    n_sites = 0
+    for m in ci.methods.values():
+        for x in walk_own(m.node):
+            tgt = None
+            kind = None
+            if isinstance(x, ast.Call) and isinstance(x.func, ast.Attribute) and x.func.attr in MUTATORS:
+                tgt, kind = x.func.value, f'.{x.func.attr}()'
+            elif isinstance(x, (ast.Subscript, ast.Attribute)) and isinstance(x.ctx, (ast.Store, ast.Del)):
+                tgt, kind = (x.value if isinstance(x, ast.Subscript) else x), 'store' if isinstance(x.ctx, ast.Store) else 'del'
+            if tgt is None:
+                continue
+            root = tgt
+            while isinstance(root, ast.Subscript):
+                root = root.value
+            d = dotted(root)
+            if not (d and d.startswith('self.') and d.split('.')[1] in attr_names):
+                continue
+            n_sites += 1
+            if m.name in allowed or 'reset' in m.name:
+                continue
+            bad.append((m, x, kind))
+    ck.ob('RECORD-BEFORE-REPLY', f'{n_sites} writes to the table of recorded calls: only the constructor, the recording and the reset operations', not bad)
+    ck.require('RECORD-BEFORE-REPLY', 'writes to the table of recorded calls', n_sites, 2)
+    for m, x, kind in bad:
+        ck.finding('RECORD-BEFORE-REPLY', m.qualname, f'recorded calls modified by {m.name}: {norm(x)[:40]}', m.module.rel, x.lineno,
+                   f'`{norm(x)[:80]}` ({kind}) in {m.name} takes recorded calls away: every call must stay recorded under its endpoint and method '
+                   f'whatever is added, replaced, removed or consumed afterwards (only reset() clears the records)')
 
 
 def _configured_values(ck: Check, prog: Program, ci: ClassInfo) -> None:
@@ -692,6 +730,9 @@ def simulate_rotation(prog: Program, mr: FuncInfo, cfg: CFG, lst_var: str, sel_v
 
 
 MUTANTS = [
+    dict(name='cleanup-forgets-recorded-calls', file='pjrpc/client/integrations/pytest.py',
+         find='            self._matches.pop(endpoint)\n', replace='            self._matches.pop(endpoint)\n            self._calls.pop(endpoint, None)\n',
+         expect='RECORD-BEFORE-REPLY'),
     dict(name='falsy-result-defaulted', file='pjrpc/client/integrations/pytest.py', nth=0,
          find='        match = Match(endpoint, version, method_name, once, id=id, result=result, error=error, callback=callback)\n',
          replace='        if not (result or error or callback):\n            result = None\n'
